@@ -1282,6 +1282,21 @@ def r5_check_escaped(run):
             if ci is not None and isinstance(n.ops[0], (ast.In, ast.NotIn)):
                 kinds_present.add('c%d' % ci)
     if not kinds_present & {'c0', 'c1'}:
+        # frozen table of look-alike idioms that are NOT an exact two-hex-digit
+        # test: int(x, 16) also accepts a sign, surrounding whitespace,
+        # underscores and a single digit; bytes.fromhex/unhexlify skip or
+        # reject differently.  Using one of them as the escape check is a
+        # genuine defect of the heuristic, not an unknown shape.
+        lookalike = [c for c in walk_self(loop) if isinstance(c, ast.Call) and (
+            (isinstance(c.func, ast.Name) and c.func.id == 'int' and len(c.args) == 2
+             and isinstance(c.args[1], ast.Constant) and c.args[1].value == 16)
+            or (isinstance(c.func, ast.Attribute) and c.func.attr in ('fromhex', 'unhexlify', 'a2b_hex')))]
+        if lookalike:
+            run.fail('the escape check relies on %s, which accepts strings that are not two hex digits (sign, whitespace, '
+                     'underscore, single digit): a malformed escape passes as already escaped' % short(lookalike[0].func, 30),
+                     enc, lookalike[0], where=enc.loc(lookalike[0]),
+                     runtime_witness="encode_check_escaped('%+a') / ('/sale/100%-5') is returned unchanged")
+            return
         raise UnknownIdiom('%s: the escape check does not test the characters after %% against a digit set' % enc.qual)
     cases = [('short', 0, 'no character follows the %'), ('short', 1, 'a single character follows the %'),
              ('c0', None, 'the first character after % is not a hex digit'), ('c1', None, 'the second character after % is not a hex digit')]
